@@ -440,6 +440,17 @@ func (w *World) oracleCrash() {
 			if delivered == 0 && reported == 0 {
 				s.Violate("C02/acked-lost/"+model+"/"+before, "message %s was accepted (incarnation %d) before the stop; recipient %s was neither delivered nor reported after restart; crashes=%v spool=%v", m.ID, m.ackInc, r, w.crashOps, w.fs.Names(spool))
 			}
+			// within one incarnation (no stop in between) the queue knows what it
+			// has done: the same recipient is not handed downstream twice
+			perInc := map[int]int{}
+			for _, tx := range txs {
+				if tx.Delivered(r) {
+					perInc[tx.Inc]++
+					if perInc[tx.Inc] == 2 {
+						s.Violate("C02/duplicate-within-incarnation", "%s: %s was committed downstream twice by incarnation %d (second time in tx%d) without a stop in between; crashes=%v", m.ID, r, tx.Inc, tx.N, w.crashOps)
+					}
+				}
+			}
 			// not re-sent once a later attempt had begun
 			if firstDelivered >= 0 {
 				later := false
